@@ -10,6 +10,7 @@ CONSTANTS
   BugH9 = TRUE
   BugH10 = TRUE
   BugMetaStale = TRUE
+  BugH11 = FALSE
   KRounds = 12
 INVARIANTS TypeOK C09ModKF C15ModKF
 VIEW ExhView
